@@ -70,6 +70,9 @@ where
         }
         let tol = m.mul_i(4 * (n as i64) + 2).mul_pow2(-53);
         let g = vals[xi];
+        if !m.is_zero() && m.ilog2() >= 1020 {
+            continue; // partial terms overflow: outside the property
+        }
         if !g.is_finite() || !dy(g).sub(&s).abs().le(&tol) {
             return Err(Fail::new("p.derivative().evaluate(x) is not p'(x) within the evaluation bound", detail(json!({"x": fj(x), "got": fj(g), "exact~": s.to_f64(), "tolerance~": tol.to_f64()}))));
         }
@@ -121,9 +124,23 @@ pub fn check(thorough: bool, _seed: u64) -> Check {
         split: 3,
         body: Box::new(move |unit, cx| {
             let n = unit + 1;
-            let c: Vec<f64> = if cx.choose(2) == 0 {
-                let sc = [1.0, 8.673617379884035e-19, 1099511627776.0][cx.choose(3)];
+            let mode = cx.choose(3);
+            let c: Vec<f64> = if mode == 0 {
+                let sc = [1.0, 8.673617379884035e-19, 1099511627776.0, 3e6, 1e-7][cx.choose(5)];
                 LANE_ID[..n].iter().map(|v| v * sc).collect()
+            } else if mode == 2 {
+                // one lane at the overflow / underflow boundary of its integer factor: the largest c with k*c finite, its
+                // neighbours, and the smallest normal / subnormal numbers
+                let lane = cx.choose(n);
+                let k = lane.max(1) as f64;
+                let mut b = f64::MAX / k;
+                if dy(b).mul_i(k as i64).cmp(&dy(f64::MAX)) == std::cmp::Ordering::Greater {
+                    b = exact::pred(b); // MAX/k rounded up: keep the largest c whose exact product k*c is finite
+                }
+                let vals = [b, -b, exact::pred(b), b * 0.9375, f64::MAX / (k + 1.0), f64::MIN_POSITIVE, -f64::MIN_POSITIVE * 1.5, 5e-324 * k, f64::MAX / (k + 0.5), -f64::MAX / (k + 0.5)];
+                let mut v = LANE_ID[..n].to_vec();
+                v[lane] = vals[cx.choose(vals.len())];
+                v
             } else {
                 let w = if n <= 6 { 8 } else if thorough { 6 } else { 4 };
                 (0..n).map(|_| COEF[cx.choose(w)]).collect()
@@ -138,11 +155,20 @@ pub fn check(thorough: bool, _seed: u64) -> Check {
             by_degree!(unit, leaf(&c, cx))
         }),
         classes: vec![("degree_0", true), ("degree>=1", true)],
-        bounds: json!({"degrees": "0..8", "coefficients": format!("lane-identifier vector (also scaled by 2^-60 and 2^40) + cube over the first w of {{0,1,-1,0.1,-1/3,7.25e5,pi,1e-9}}: w=8 up to degree 5, w={} above", if thorough {6} else {4}),
+        bounds: json!({"degrees": "0..8", "coefficients": format!("lane-identifier vector (also scaled by 2^-60, 2^40, 3e6, 1e-7); every lane swept through the overflow boundary MAX/k of its factor, its neighbours, MAX/7.5, MIN_POSITIVE and subnormals + cube over the first w of {{0,1,-1,0.1,-1/3,7.25e5,pi,1e-9}}: w=8 up to degree 5, w={} above", if thorough {6} else {4}),
             "arguments": "{-2.5,0.3,7,0}", "oracle": "exact dyadic (i+1)*c_(i+1)"}),
     };
     let mut sh = shapes(&[1.0, 2.0, 3.0, 4.0], 4);
     sh.extend(shapes(&[-f64::MAX, -0.0, 0.0, 5e-324, f64::INFINITY], 3));
+    // breakpoints a few ulps apart (distinct pieces that a tolerance-based clean-up would merge)
+    let s1 = exact::succ(1.0);
+    sh.extend(shapes(&[1.0, s1, exact::succ(s1), 2.0], 4));
+    sh.push(vec![0.3, 0.1 + 0.2, 1.0]);
+    sh.push(vec![-1.0, exact::succ(-1.0), 5e-324, 1e-323]);
+    // every length up to 520 (strip / block sizes of any chunked implementation)
+    for n in 5..=520usize {
+        sh.push((1..=n).map(|i| i as f64).collect());
+    }
     for n in [6usize, 9, 17] {
         let mut e: Vec<f64> = (1..=n).map(|i| i as f64).collect();
         sh.push(e.clone());
@@ -172,7 +198,7 @@ pub fn check(thorough: bool, _seed: u64) -> Check {
             }
         }),
         classes: vec![],
-        bounds: json!({"shapes": "end lists of length 1..4 over {1..4}, 1..3 over {-MAX,-0.0,+0.0,5e-324,+inf}, and 1..n for n=6,9,17 plain and with duplicate runs", "piece_types": "Poly0, Poly1, Poly4, Poly8"}),
+        bounds: json!({"shapes": "end lists of length 1..4 over {1..4}, 1..3 over {-MAX,-0.0,+0.0,5e-324,+inf}, 1..n for every n up to 520, n=6,9,17 also with duplicate runs; lists over {1,succ(1),succ(succ(1)),2}, [0.3, 0.1+0.2, 1], [-1,succ(-1),5e-324,1e-323]", "piece_types": "Poly0, Poly1, Poly4, Poly8"}),
     };
     Check {
         id: "C08",
